@@ -530,10 +530,16 @@ def r05_7(prog, rep):
     for name, val in en["enumerators"]:
         got = []
 
+        vep_p = pro.params[0]["n"]
+
         def eff(b, i, x, store, _g=got):
             for c in calls(x):
                 if c.get("fn") == fldf.name:
                     _g.append(1)
+            for l, kind, nn in writes(x):
+                t = lv(l)
+                if t.startswith(vep_p + "->t.") or t.startswith(vep_p + "[0].t."):
+                    _g.append(1)        # the prologue stores the field itself
             return None
         AbsWalk(pro, {fpar_p[0]}, init={fpar_p[0]: val}, effect=eff).run()
         if not got:
@@ -563,8 +569,65 @@ def r05_7(prog, rep):
                          name, name, ", ".join(firstwins)))
         else:
             rep.ok(rid, key, fldf.loc(), "the event-level %s replaces a calendar-level default (%s)" % (name, ", ".join(sorted(free)) or "no store"), nontrivial=False)
-    if nd < 3:
-        rep.broken_("rule=R05.7 expected >=3 fields delegated by snarf_pro to snarf_fld, found %d" % nd)
+    if nd < 4:
+        rep.broken_("rule=R05.7 expected >=4 fields that snarf_pro accepts at calendar level, found %d" % nd)
+
+
+def r05_8(prog, rep):
+    """The rule streams of one event lie in an array (`this[i]`); each has its own occurrence cache `cch[]`, read position `rdi` and fill
+    level `ncch`.  Wherever a read of the cache is controlled by a comparison of a read position with a fill level, all four — the
+    compared position, the compared level, the cache and the index — must belong to the same stream (after looking through cursors
+    such as `that = this + i`)."""
+    rid = "R05.8"
+    n = 0
+    for f in prog.fns_in("evical.c"):
+        if not f.cfg:
+            continue
+        cfg = f.cfg
+
+        def base(x):
+            t = lv(strip_casts(f.expand(cfg.resolve(x))))
+            for suf in ("->rdi", ".rdi", "->ncch", ".ncch", "->cch", ".cch"):
+                if t.endswith(suf):
+                    return t[:-len(suf)]
+            return None
+        guards = []
+        for b in cfg.blocks:
+            c = cfg.cond(b)
+            if c is None:
+                continue
+            for nn in walk(c):
+                if nn.get("k") == "bin" and nn["op"] in ("<", "<=", ">", ">="):
+                    ls, rs = lv(strip_casts(f.expand(nn["l"]))), lv(strip_casts(f.expand(nn["r"])))
+                    if (ls.endswith("rdi") and rs.endswith("ncch")) or (ls.endswith("ncch") and rs.endswith("rdi")):
+                        guards.append((b, base(nn["l"]), base(nn["r"]), nn.get("line")))
+        if not guards:
+            continue
+        for b, i, x, line in cfg.all_elems():
+            if not isinstance(x, dict):
+                continue
+            for nn in walk(cfg.resolve(x)):
+                if nn.get("k") == "idx" and lv(strip_casts(f.expand(nn["b"]))).endswith("cch"):
+                    ix = strip_casts(f.expand(nn["i"]))
+                    ixs = [lv(q) for q in walk(ix) if q.get("k") == "mem" and q.get("f") == "rdi"]
+                    if not ixs:
+                        continue
+                    cb = base(nn["b"])
+                    ib = ixs[0][:-len("->rdi")] if ixs[0].endswith("->rdi") else ixs[0][:-len(".rdi")]
+                    ctl = [g for g in guards if g[0] != b and cfg.dominates(g[0], b)]
+                    if not ctl:
+                        continue
+                    n += 1
+                    gb, g1, g2, gl = sorted(ctl, key=lambda g: -g[0])[-1] if False else ctl[-1]
+                    key = "%s/cache-read(%s)" % (f.name, lv(strip_casts(f.expand(nn)))[:40])
+                    if len({cb, ib, g1, g2}) == 1:
+                        rep.ok(rid, key, f.loc(nn.get("line", line)), "fill-level test, cache and read position all belong to %s" % cb)
+                    else:
+                        rep.fail(rid, key, f.loc(nn.get("line", line)), "the cache of %s is read at the position of %s under a test that compares %s's position with %s's "
+                                 "fill level: for the other rule streams of the event the test says nothing, an exhausted sibling contributes a stale "
+                                 "or unfilled cache slot (the written DTSTART jumps ahead or is dropped)" % (cb, ib, g1, g2))
+    if n < 2:
+        rep.broken_("rule=R05.8 expected >=2 guarded reads of a rule stream's cache, found %d" % n)
 
 
 def run(prog, rep, tier, snap):
@@ -579,6 +642,8 @@ def run(prog, rep, tier, snap):
     rep.call(encodings.r05_4, prog, rep)
     rep.call(r05_4b, prog, rep)
     rep.call(encodings.r05_4c, prog, rep)
+    rep.rule("R05.8", "fill-level test and cache read concern the same rule stream", 2)
+    rep.call(r05_8, prog, rep)
     rep.rule("R05.5", "every freed/cloned sub-stream is serialised", 3)
     rep.call(r05_5, prog, rep)
     rep.rule("R05.7", "calendar-level defaults fill only what the event leaves unset", 4)
@@ -586,4 +651,7 @@ def run(prog, rep, tier, snap):
     from ..rules import valist
     rep.rule("R05.6", "the buffered writer never formats from a consumed va_list (records larger than the write buffer)", 1)
     valist.r_valist(prog, rep, "R05.6", only=("fdprintf",))
+    from ..rules import state
+    rep.rule("R05.9", "the serialiser carries no state from one task to the next (memo keys must cover every argument)", 1)
+    rep.call(state.no_carried_state, prog, rep, "R05.9", "serialise")
 READY = True
